@@ -106,6 +106,7 @@ class Exec:
         self.loops = []
         self.env_pc = {}
         self.atom_syms = {}
+        self.atom_info = {}     # atom symbol -> ('zero', d) meaning d==0 | ('pos', e) meaning e>0 | ('exited', loop symbol)
         self.inline_depth = 0
         self.cur_fn = fn
 
@@ -130,6 +131,7 @@ class Exec:
                 if d.as_ordered_terms()[0].as_coeff_Mul()[0] < 0:
                     d = sp.expand(-d)
                 r = self.atom("(%s==0)" % sp.sstr(d))
+                self.atom_info[r] = ("zero", d)
             return r if op == "==" else sp.Not(r)
         # strict "positive" atoms: (e>0)
         if op == "<":
@@ -144,9 +146,32 @@ class Exec:
             raise Incomplete("comparison operator " + op)
         if e.is_number:
             r = sp.true if e > 0 else sp.false
+        elif self.range_sign(e) is not None:
+            r = sp.true if self.range_sign(e) else sp.false
         else:
             r = self.atom("(%s>0)" % sp.sstr(e))
+            self.atom_info[r] = ("pos", e)
         return sp.Not(r) if neg else r
+
+    def range_sign(self, e):
+        """e > 0 decided by the ranges lo <= s < hi (integers) of the active symbolic loops: True / False / None"""
+        for lp in self.loops:
+            if not lp.get("symbolic"):
+                continue
+            s_, lo, hi = lp["sym"], lp["lo"], lp["hi"]
+            m = sp.expand(e - (hi - s_))
+            if m.is_number and m >= 0:
+                return True            # e = (hi - s) + m >= 1
+            m = sp.expand(e - (s_ - lo))
+            if m.is_number and m >= 1:
+                return True            # e = (s - lo) + m >= 1
+            m = sp.expand(e + (hi - s_))
+            if m.is_number and m <= 1:
+                return False           # e = m - (hi - s) <= 0
+            m = sp.expand(e + (s_ - lo))
+            if m.is_number and m <= 0:
+                return False           # e = m - (s - lo) <= 0
+        return None
 
     def truth(self, v):
         if isinstance(v, Obj):
@@ -466,6 +491,12 @@ class Exec:
         if callee == "FEAT::Math::isnan" and len(n["a"]) == 1:
             v = self.scalar(self.rv(self.ev(n["a"][0], env, pc), pc), pc)
             return self.atom("isnan(%s)" % sp.sstr(sexp(v)))
+        if callee in ("FEAT::Math::eps", "FEAT::Math::huge", "FEAT::Math::tiny") and not n.get("a"):
+            # machine constants: positive, otherwise unknown, symbolic thresholds
+            return sp.Symbol(callee.rsplit("::", 1)[-1], positive=True)
+        if callee in ("FEAT::Math::sqr", "FEAT::Math::abs", "FEAT::Math::sqrt") and len(n.get("a", [])) == 1:
+            v = self.scalar(self.rv(self.ev(n["a"][0], env, pc), pc), pc)
+            return {"sqr": v * v, "abs": sp.Abs(v), "sqrt": sp.sqrt(v)}[callee.rsplit("::", 1)[-1]]
         if callee.startswith("FEAT::LAFEM::Arch::"):
             vals = []
             for a in n.get("a", []):
@@ -549,6 +580,16 @@ class Exec:
             if not self.loops:
                 raise Incomplete("continue outside a loop")
             return sp.false
+        if k == "Break":
+            if not self.loops:
+                raise Incomplete("break outside a loop")
+            lp = self.loops[-1]
+            if lp.get("dead_break"):
+                return sp.false
+            if lp["symbolic"] and lp.get("exit_atom") is None:
+                raise Incomplete("break in a symbolic loop that was not prepared for it")
+            lp["brk"][0] = sp.Or(lp["brk"][0], pc)
+            return sp.false
         if k in ("Null_", "Attributed"):
             return pc
         if k in ("Assign", "OpCall", "MCall", "Call", "Un"):
@@ -578,11 +619,15 @@ class Exec:
         if lo.is_Integer and hi.is_Integer:
             if hi - lo > 64:
                 raise Incomplete("constant loop too long")
+            brk = [sp.false]   # condition under which an earlier iteration left the loop by `break`
             for val in range(int(lo), int(hi)):
                 env[d] = sp.Integer(val)
-                self.loops.append({"symbolic": False, "var": var["n"], "val": val, "lo": lo, "hi": hi, "outer_decls": ()})
+                pci = pc if brk[0] is sp.false else sp.simplify_logic(sp.And(pc, sp.Not(brk[0])))
+                if pci is sp.false:
+                    break
+                self.loops.append({"symbolic": False, "var": var["n"], "val": val, "lo": lo, "hi": hi, "outer_decls": (), "brk": brk})
                 try:
-                    self.block(n["body"], env, pc)
+                    self.block(n["body"], env, pci)
                 finally:
                     self.loops.pop()
             return pc
@@ -594,12 +639,66 @@ class Exec:
         env[d] = s
         inner = {v["d"] for x in walk(n["body"]) if x.get("k") == "Decl" for v in x["vars"]}
         outer = {x for x in env if x not in inner and x != d}
-        self.loops.append({"symbolic": True, "var": var["n"], "sym": s, "lo": lo, "hi": hi, "outer_decls": outer})
+        # `break` in a symbolic loop: the generic iteration i runs iff no earlier iteration i' < i left the loop; that fact is a
+        # free atom exited(i) (loop-exit summary).  A break whose condition contradicts the loop range is dead and ignored.
+        has_break = any(x.get("k") == "Break" for x in walk(n["body"], prune=lambda x: x.get("k") in ("For", "While", "Do", "ForRange", "Switch")))
+        exit_atom = None
+        if has_break:
+            exit_atom = self.atom("exited(%s)" % name)
+            self.atom_info[exit_atom] = ("exited", s)
+        frame = {"symbolic": True, "var": var["n"], "sym": s, "lo": lo, "hi": hi, "outer_decls": outer, "brk": [sp.false], "exit_atom": exit_atom}
+        if has_break:
+            # dry run to learn the break condition; if it is dead (contradicts lo <= i < hi) the loop is analysed without it
+            snap = (dict(self.mem), list(self.stores), list(self.events), list(self.asserts), dict(env))
+            self.mem = {k_: list(v_) for k_, v_ in self.mem.items()}
+            self.loops.append(frame)
+            try:
+                self.block(n["body"], env, pc)
+            finally:
+                self.loops.pop()
+            dead = self.dead_in_range(frame["brk"][0], s, lo, hi)
+            self.mem, self.stores, self.events, self.asserts = {k_: list(v_) for k_, v_ in snap[0].items()}, snap[1], snap[2], snap[3]
+            for k_ in list(env):
+                if k_ not in snap[4]:
+                    del env[k_]
+            env.update(snap[4])
+            frame["brk"] = [sp.false]
+            if dead:
+                frame["exit_atom"] = exit_atom = None
+                frame["dead_break"] = True
+        self.loops.append(frame)
         try:
-            self.block(n["body"], env, pc)
+            self.block(n["body"], env, pc if exit_atom is None else sp.And(pc, sp.Not(exit_atom)))
         finally:
             self.loops.pop()
         return pc
+
+    def dead_in_range(self, cond, s, lo, hi):
+        """True if the break condition implies a literal that contradicts lo <= s < hi (integers)"""
+        if cond is sp.false:
+            return True
+        for a in cond.free_symbols:
+            info = self.atom_info.get(a)
+            if not info or info[0] != "pos":
+                continue
+            e = info[1]
+            if sp.simplify_logic(sp.Implies(cond, a)) is sp.true:
+                # e > 0 claimed; e = s - hi - m (m >= 0)  =>  s >= hi + m + 1 : impossible
+                m = sp.expand(e - (s - hi))
+                if m.is_number and m <= 0:
+                    return True
+                m = sp.expand(e - (lo - s))      # e = lo - s - m  => s < lo
+                if m.is_number and m <= 0:
+                    return True
+            if sp.simplify_logic(sp.Implies(cond, sp.Not(a))) is sp.true:
+                # not (e > 0) claimed; e = hi - s - m with m <= 0  =>  hi - s <= m <= 0 : impossible
+                m = sp.expand((hi - s) - e)
+                if m.is_number and m <= 0:
+                    return True
+                m = sp.expand((s - lo + 1) - e)  # e = s - lo + 1 - m, m <= 0: s - lo + 1 <= 0 impossible
+                if m.is_number and m <= 0:
+                    return True
+        return False
 
     def run(self):
         env = {}
@@ -682,7 +781,7 @@ def atoms_of(*things):
     for t in things:
         if isinstance(t, sp.Basic):
             for s_ in t.free_symbols:
-                if s_.is_integer is None and (str(s_).startswith("(") or str(s_).startswith("isnan(") or str(s_).endswith(".empty") or str(s_) in ("ign_nans", "this._ignore_nans")):
+                if s_.is_integer is None and (str(s_).startswith("(") or str(s_).startswith("isnan(") or str(s_).startswith("exited(") or str(s_).endswith(".empty") or str(s_) in ("ign_nans", "this._ignore_nans")):
                     out.add(s_)
     return out
 
@@ -838,31 +937,10 @@ def unit_form_problems(ks, kind):
     return probs
 
 
-def slip_problems(ks):
-    """orthogonal projection v - (v.n)/(n.n) n on each constrained block: normal-free, idempotent, tangential part kept"""
+def projection_identities(f, vs, ns):
+    """problems of the map v -> f(v) (list of sympy expressions in vs, ns) as the orthogonal projection along ns"""
     probs = []
-    i = ks.isym
-    if i is None or ks.values != "nu_elements":
-        return ["kernel does not look like a slip kernel (no nu_elements role / no stores)"]
-    bs = ks.bs
-    S = None
-    new, old, nrm = [], [], []
-    for c in range(bs):
-        st = ks.cells.get(c, [])
-        if len(st) != 1 or st[0]["pc"] is not sp.true:
-            return ["component %d is stored %d times / conditionally; the slip update must be one unconditional store per component" % (c, len(st))]
-        idx = st[0]["idx"][0]
-        new.append(st[0]["val"])
-        old.append(sp.Function("v")(idx))
-        nrm.append(sp.Function("nu_elements")(sp.expand(bs * i + c)))
-    vs = sp.symbols("v0:%d" % bs, real=True)
-    ns = sp.symbols("n0:%d" % bs, real=True)
-    sub = dict(zip(old, vs))
-    sub.update(zip(nrm, ns))
-    f = [sp.together(e.subs(sub)) for e in new]
-    extra = set().union(*[e.atoms(sp.Function) for e in f]) if f else set()
-    if extra:
-        return ["update reads other data than the block of v and its normal: %s" % sorted(str(x) for x in extra)[:3]]
+    bs = len(vs)
     ndot = sp.simplify(sum(a * b for a, b in zip(f, ns)))
     if ndot != 0:
         probs.append("normal component after filtering is %s (must vanish identically)" % ndot)
@@ -870,12 +948,134 @@ def slip_problems(ks):
     if any(x != 0 for x in ff):
         probs.append("applying the update twice differs from applying it once by %s" % [str(x) for x in ff if x != 0][:1])
     d = [sp.simplify(a - b) for a, b in zip(f, vs)]
-    if bs == 2:
-        cross = [sp.simplify(d[0] * ns[1] - d[1] * ns[0])]
-    else:
-        cross = [sp.simplify(d[a] * ns[b] - d[b] * ns[a]) for a in range(bs) for b in range(a + 1, bs)]
+    cross = [sp.simplify(d[a] * ns[b] - d[b] * ns[a]) for a in range(bs) for b in range(a + 1, bs)]
     if any(x != 0 for x in cross):
         probs.append("the change f(v)-v is not parallel to the normal: tangential components are modified")
+    return probs
+
+
+def normal_region(ex, asg, atoms, sub, ns):
+    """Interprets the literals of one guard case as constraints on N = n.n (>= 0).
+    -> ('empty', text) | ('zero', text) | ('nonzero', text): the case is infeasible / forces n == 0 / admits non-zero normals."""
+    N = sp.Symbol("N", nonnegative=True)
+    nn = sum(x * x for x in ns)
+    lowers, uppers, texts = [], [], []      # (bound, strict)
+    forced_zero = False
+    others = []
+    for a in sorted(atoms, key=str):
+        info = ex.atom_info.get(a)
+        if info is None or info[0] not in ("zero", "pos"):
+            raise Incomplete("slip kernel is guarded by %s, which is not a comparison" % a)
+        e = sp.expand(info[1].subs(sub))
+        if e.atoms(sp.Function):
+            raise Incomplete("slip guard %s reads data other than the normal of the block" % a)
+        c = e.coeff(ns[0], 2)
+        g = sp.expand(e - c * nn)
+        if c == 0 or not c.is_number or any(x in g.free_symbols for x in ns) or any(x in g.free_symbols for x in sub.values()):
+            raise Incomplete("slip guard %s is not a condition on n.n alone" % a)
+        bnd = -g / c           # e = c*(N - bnd)
+        val = asg[a]
+        sgn = 1 if c > 0 else -1
+        if info[0] == "zero":
+            rel = "==" if val else "!="
+        else:               # e > 0  <=>  N > bnd (c>0) / N < bnd (c<0)
+            if val:
+                rel = ">" if sgn > 0 else "<"
+            else:
+                rel = "<=" if sgn > 0 else ">="
+        texts.append("n.n %s %s" % (rel, bnd))
+        others.append((rel, bnd))
+    def sign(x):
+        x = sp.simplify(x)
+        if x.is_zero:
+            return 0
+        if x.is_positive:
+            return 1
+        if x.is_negative:
+            return -1
+        raise Incomplete("sign of the threshold %s is unknown" % x)
+    text = " and ".join(texts) or "always"
+    # evaluate constraints
+    for rel, b in others:
+        sb = sign(b)
+        if rel == "<" and sb <= 0:
+            return "empty", text
+        if rel == "<=" and sb < 0:
+            return "empty", text
+        if rel == "==" and sb < 0:
+            return "empty", text
+        if (rel == "<=" and sb == 0) or (rel == "==" and sb == 0):
+            forced_zero = True
+    if forced_zero:
+        for rel, b in others:      # must hold at N = 0
+            sb = sign(b)
+            ok = {"<": sb > 0, "<=": sb >= 0, "==": sb == 0, "!=": sb != 0, ">": sb < 0, ">=": sb <= 0}[rel]
+            if not ok:
+                return "empty", text
+        return "zero", text
+    lo_b = [b for rel, b in others if rel in (">", ">=", "==")]
+    up_b = [(b, rel) for rel, b in others if rel in ("<", "<=", "==")]
+    for l in lo_b:
+        for u, rel in up_b:
+            d = sp.simplify(u - l)
+            if d.is_negative:
+                return "empty", text
+            if not (d.is_positive or d.is_zero):
+                raise Incomplete("order of the thresholds %s and %s is unknown" % (l, u))
+    return "nonzero", text
+
+
+def slip_problems(ks):
+    """Per guard case: the stored block must be the orthogonal projection v - (v.n)/(n.n) n (normal-free, idempotent, tangential part kept).
+    A case in which the block is NOT stored leaves f = identity; that satisfies the identities only if the case forces n == 0
+    (then n.v = 0 trivially and HEAD's 0/0 is avoided) -- a skip for any non-zero normal violates 'vanishing normal component'."""
+    i = ks.isym
+    if i is None or ks.values != "nu_elements":
+        return ["kernel does not look like a slip kernel (no nu_elements role / no stores)"]
+    bs = ks.bs
+    ex = ks.ex
+    old, nrm = [], []
+    for c in range(bs):
+        st = ks.cells.get(c, [])
+        if not st:
+            return ["component %d of the block is never stored" % c]
+        old.append(sp.Function("v")(st[0]["idx"][0]))
+        nrm.append(sp.Function("nu_elements")(sp.expand(bs * i + c)))
+    vs = sp.symbols("v0:%d" % bs, real=True)
+    ns = sp.symbols("n0:%d" % bs, real=True)
+    sub = dict(zip(old, vs))
+    sub.update(zip(nrm, ns))
+    atoms = set()
+    for c in range(bs):
+        for s_ in ks.cells[c]:
+            atoms |= atoms_of(s_["pc"], s_["val"])
+    probs, cache = [], {}
+    for asg in assignments(atoms):
+        res = [final_value(ks.cells[c], asg) for c in range(bs)]
+        nstored = sum(1 for st_, _ in res if st_)
+        kind, text = normal_region(ex, asg, atoms, sub, ns)
+        if kind == "empty":
+            continue
+        if nstored == 0:
+            if kind == "zero":
+                continue        # n == 0: identity satisfies n.f(v) = 0, idempotence, f(v)-v = 0
+            probs.append("case {%s}: the block is left unfiltered for non-zero normals (path condition 0 < n.n and %s): its normal component does not vanish; skipping is admissible only for n.n == 0" % (asg_str(asg), text))
+            continue
+        if nstored != bs:
+            probs.append("case {%s}: only %d of %d components of the block are updated" % (asg_str(asg), nstored, bs))
+            continue
+        if kind == "zero":
+            continue            # division by n.n == 0: no admissible normal
+        f = tuple(sp.together(val.subs(sub)) for _, val in res)
+        extra = set().union(*[e.atoms(sp.Function) for e in f])
+        if extra:
+            return ["update reads other data than the block of v and its normal: %s" % sorted(str(x) for x in extra)[:3]]
+        if f not in cache:
+            cache[f] = projection_identities(list(f), vs, ns)
+        for p_ in cache[f]:
+            msg = p_ if not atoms else "case {%s}: %s" % (asg_str(asg), p_)
+            if msg not in probs:
+                probs.append(msg)
     return probs
 
 
@@ -1383,7 +1583,7 @@ def run(tier):
     ck.rule("E1.slots", "at the kernel call the slots (by callee parameter names) receive vector.elements(), and elements()/indices()/used_elements() of ONE sparse vector of the filter, the one whose size the method asserts equal to the vector size, and _ignore_nans. Broken => values of entry i imposed at a foreign index (e.g. SlipFilter _nu vs _sv differ as soon as not all vertices are constrained)", 20 * k)
     ck.rule("E1.dispatch", "Arch dispatchers forward every argument to the like-named parameter of a *_generic kernel on every path", n_disp)
     ck.rule("E5.idempotent-form", "stored values and store guards of unit kernels / matrix filters do not read the array being written (=> a second application stores the same values); mean filters are covered by E6.mean-roles, slip by E11.slip-projection", n_idem)
-    ck.rule("E11.slip-projection", "slip kernels, block sizes 2 and 3, translated to sympy: the new block has zero normal component, f(f(v))=f(v), and f(v)-v is parallel to the normal. Broken (e.g. no division by n.n) => non-unit normals leave a normal component", 4 * k)
+    ck.rule("E11.slip-projection", "slip kernels, block sizes 2 and 3, translated to sympy: the new block has zero normal component, f(f(v))=f(v), and f(v)-v is parallel to the normal -- per guard case of the kernel (Math::eps/huge are positive symbolic constants); a case that leaves the block unstored is admissible only if it forces n.n == 0 (identity is then the projection and 0/0 is avoided). Broken (no division by n.n; skip for n.n < eps) => non-unit / short normals leave a normal component", 4 * k)
     ck.rule("C06.unit-row", "final value of every (block) entry of a filtered row: filter_mat 1 iff col_ind[j]==ix (and k==l inside the block) else 0, filter_offdiag_row_mat 0; rows of NaN components skipped iff ignore_nans. Broken => filtered system does not reproduce the boundary values (any matrix with off-diagonal entries in a constrained row)", 11 * k)
     ck.rule("E6.mean-roles", "MeanFilter / MeanFilterBlocked / Global::MeanFilter: filter_rhs/def add c*_vec_dual with c = -<vector,_vec_prim>/_volume, filter_sol/cor add c*_vec_prim with c = [sol_mean] - <vector,_vec_dual>/_volume (per block component; global: frequency-weighted triple_dot summed over the communicator). Broken => mean not removed / not idempotent whenever prim != dual (any non-uniform mesh)", 16 * k)
     ck.rule("E4.map", "FilterChain, FilterSequence, TupleFilter, PowerFilter, Global::Filter: filter_X applies filter_X (same method) of every component exactly once, to the whole vector (chain/sequence, in declared order) resp. to the like-named sub-vector first()/rest()/local()", 65 * k)
@@ -1596,7 +1796,7 @@ def finish(ck, wide):
     ck.assume("kernels are analysed as instantiated for the template arguments of the driver (%s; block sizes 2 and 3; BCSR blocks 2x2, 2x3, 3x3, 3x2, 1x2); build configuration without CUDA/MKL, so dispatchers reach the *_generic kernels" % ("double/float x 64/32-bit indices" if wide else "double, 64-bit indices; the thorough tier adds float and 32-bit indices"))
     ck.assume("mean filters: <_vec_prim,_vec_dual> = _volume is taken from the constructors' documentation; rounding is not modelled (symbolic real arithmetic)")
     expl = ("Static analysis of the filter layer as parsed by clang from the instantiation driver tu/c06_filters.cpp: a symbolic executor over the typed statement trees "
-            "(constant loops unrolled, symbolic loops executed for one generic iteration, path conditions as boolean formulae over canonical atoms) summarises each kernel / matrix filter "
+            "(constant loops unrolled with break/continue as exit conditions, symbolic loops executed for one generic iteration with a loop-exit atom for `break`, comparisons decided by the loop ranges folded, path conditions as boolean formulae over canonical atoms) summarises each kernel / matrix filter "
             "as guarded stores and each filter method as kernel-call / axpy events with evaluated arguments. Rules: footprint and coverage of the stores (clause 1), role->kernel form with slot roles "
             "by callee parameter names (clause 2), idempotence by form and the slip projection identities in sympy for block sizes 2 and 3 (clause 3), unit/null matrix rows decided on the full truth table of the guards (clause 4), "
             "mean-filter vector roles and the factor c-D/_volume (clause 5), MAP conformance of the five composition classes (clause 6). NOT decided: rounding ('zero mean up to rounding'), duplicate indices, rows without a stored diagonal, "
